@@ -9,7 +9,7 @@ S=/var/tmp/vf-cov
 BIN=/root/.rustup/toolchains/nightly-x86_64-unknown-linux-gnu/lib/rustlib/x86_64-unknown-linux-gnu/bin
 IDS="${*:-C09 C18 C20 C02 C03 C04 C05 C06 C07 C08 C10 C11 C13 C15 C16 C14 C17 C19 C01}"
 mkdir -p $S/out/target $S/prof
-export CARGO_NET_OFFLINE=true RUST_BACKTRACE=0 VERIF_OUT_DIR=$S/out VERIF_TIER=quick
+export CARGO_NET_OFFLINE=true RUST_BACKTRACE=0 VERIF_OUT_DIR=$S/out VERIF_TIER=quick VERIF_COV_DIVISOR="${VERIF_COV_DIVISOR:-40}"
 cd /verif/harness || exit 3
 RUSTFLAGS="-C instrument-coverage" CARGO_TARGET_DIR=$S/target cargo +nightly build --release 2>&1 | tail -2
 crate_of() { case "$1" in C09|C18|C20) echo vf-pure;; C01|C14|C17|C19) echo vf-app;; *) echo vf-sim;; esac; }
